@@ -19,6 +19,9 @@ pub enum ArenaOp {
     UpdateNode { idx: usize, value: u32 },
     /// replace the tree by its clone: every index, value, link and flag must survive
     CloneSelf,
+    /// add_root on a non-empty tree: the documented exception - the former tree stays stored but is
+    /// no longer reachable; everything else must keep holding
+    AddRoot { value: u32 },
 }
 
 impl ArenaOp {
@@ -31,6 +34,7 @@ impl ArenaOp {
             ArenaOp::Merge { .. } => "merge_child_with_parent",
             ArenaOp::UpdateNode { .. } => "update_node",
             ArenaOp::CloneSelf => "clone",
+            ArenaOp::AddRoot { .. } => "add_root",
         }
     }
 }
@@ -197,6 +201,10 @@ impl Model {
                 let Some(child) = self.nodes[&parent].children[label] else {
                     return Outcome::Err("MissingChild");
                 };
+                if self.nodes[&parent].parent.is_none() {
+                    // the root of a former tree that add_root detached
+                    return Outcome::Err("MissingParent");
+                }
                 let removed = self.nodes.remove(&parent).unwrap();
                 let gp = removed.parent.expect("non-root node has a parent");
                 let slot = self.nodes[&gp]
@@ -214,6 +222,15 @@ impl Model {
                 }
             }
             ArenaOp::CloneSelf => Outcome::OkCount(self.nodes.len() as i64),
+            ArenaOp::AddRoot { value } => {
+                let idx = match real_index {
+                    Some(i) if !self.nodes.contains_key(&i) => i,
+                    _ => return Outcome::OkIndex(usize::MAX),
+                };
+                self.nodes.insert(idx, MNode { value, parent: None, children: vec![None; k] });
+                self.root = idx;
+                Outcome::OkIndex(idx)
+            }
             ArenaOp::UpdateNode { idx, value } => {
                 let Some(n) = self.nodes.get_mut(&idx) else {
                     return Outcome::Err("InvalidIndex");
@@ -250,6 +267,7 @@ fn apply_real<const K: usize>(tree: &mut Tree<u32, K>, op: &ArenaOp) -> Outcome 
             },
             Err(e) => Outcome::Err(err_name(&e)),
         },
+        ArenaOp::AddRoot { value } => Outcome::OkIndex(tree.add_root(value)),
         ArenaOp::CloneSelf => {
             let c = tree.clone();
             *tree = c;
@@ -276,7 +294,11 @@ fn arena_view<const K: usize>(tree: &Tree<u32, K>) -> View {
 }
 
 /// Structural invariants of C12 on the real tree alone. Returns (class, detail) of the first failure.
-fn check_invariants<const K: usize>(tree: &Tree<u32, K>) -> Result<(), (String, String)> {
+fn check_invariants<const K: usize>(
+    tree: &Tree<u32, K>,
+    detached_roots: &BTreeSet<usize>,
+    expected_reachable: Option<&BTreeSet<usize>>,
+) -> Result<(), (String, String)> {
     let view = arena_view(tree);
     let mut roots = Vec::new();
     for (idx, (_, parent, children, isleaf)) in &view {
@@ -316,15 +338,17 @@ fn check_invariants<const K: usize>(tree: &Tree<u32, K>) -> Result<(), (String, 
             }
         }
     }
-    if roots.len() != 1 {
+    // exactly one parent-less node, the root - plus the roots of former trees that add_root detached
+    let live_roots: Vec<usize> = roots.iter().copied().filter(|r| !detached_roots.contains(r)).collect();
+    if live_roots.len() != 1 || roots.len() != 1 + detached_roots.len() {
         return Err((
-            if roots.is_empty() { "no_root".into() } else { "orphan".into() },
-            format!("parent-less nodes: {roots:?}"),
+            if live_roots.is_empty() { "no_root".into() } else { "orphan".into() },
+            format!("parent-less nodes: {roots:?} (former roots detached by add_root: {detached_roots:?})"),
         ));
     }
     let root_ok = guarded(|| tree.get_root_idx());
     match root_ok {
-        Ok(r) if r == roots[0] => {}
+        Ok(r) if r == live_roots[0] => {}
         other => {
             return Err(("root_mismatch".into(), format!("get_root_idx={other:?}, parent-less={roots:?}")));
         }
@@ -338,14 +362,17 @@ fn check_invariants<const K: usize>(tree: &Tree<u32, K>) -> Result<(), (String, 
     };
     let reach_set: BTreeSet<usize> = reach.iter().copied().collect();
     let stored: BTreeSet<usize> = view.keys().copied().collect();
-    if reach.len() != reach_set.len() || reach_set != stored {
+    // without add_root: every stored node is reachable; after add_root: exactly the nodes the
+    // reference model says are reachable from the new root
+    let want: &BTreeSet<usize> = expected_reachable.unwrap_or(&stored);
+    if reach.len() != reach_set.len() || &reach_set != want {
         return Err((
             "unreachable_or_cyclic".into(),
-            format!("dfs yields {} items / {} distinct, stored {}", reach.len(), reach_set.len(), stored.len()),
+            format!("dfs yields {} items / {} distinct, expected reachable {}, stored {}", reach.len(), reach_set.len(), want.len(), stored.len()),
         ));
     }
-    if tree.len() != reach_set.len() {
-        return Err(("len_mismatch".into(), format!("len()={} reachable={}", tree.len(), reach_set.len())));
+    if tree.len() != stored.len() || (expected_reachable.is_none() && tree.len() != reach_set.len()) {
+        return Err(("len_mismatch".into(), format!("len()={} stored={} reachable={}", tree.len(), stored.len(), reach_set.len())));
     }
     // parent(idx) must resolve for every non-root node (it panics on corrupted links)
     for idx in view.keys() {
@@ -463,6 +490,8 @@ struct Knobs {
     occupied_pm: usize,
     /// target size: above it removals get heavier
     soft_cap: usize,
+    /// per-mille of add_root calls on the (non-empty) tree
+    add_root_pm: usize,
 }
 
 fn gen_knobs(rng: &mut Prng) -> Knobs {
@@ -478,6 +507,7 @@ fn gen_knobs(rng: &mut Prng) -> Knobs {
         bad_label_pm: *rng.pick(&[0, 0, 10, 40]),
         occupied_pm: *rng.pick(&[50, 150, 400]),
         soft_cap: *rng.pick(&[4, 8, 16, 25]),
+        add_root_pm: *rng.pick(&[0, 0, 0, 10, 30]),
     }
 }
 
@@ -514,6 +544,11 @@ fn gen_op(rng: &mut Prng, model: &Model, freed: &[usize], next_value: &mut u32, 
     }
     if rng.chance(15, 1000) {
         return ArenaOp::CloneSelf;
+    }
+    if rng.chance(knobs.add_root_pm, 1000) {
+        let value = *next_value;
+        *next_value += 1;
+        return ArenaOp::AddRoot { value };
     }
     match rng.weighted(&weights) {
         0 => {
@@ -648,7 +683,9 @@ fn run_history<const K: usize>(
 
         // 1. the tree must satisfy the structural invariants after every call
         let after = arena_view(&tree);
-        if let Err((class, detail)) = check_invariants(&tree) {
+        let detached: BTreeSet<usize> = model.nodes.iter().filter(|(i, n)| n.parent.is_none() && **i != model.root).map(|(i, _)| *i).collect();
+        let reachable: Option<BTreeSet<usize>> = if detached.is_empty() { None } else { Some(model.subtree(model.root).into_iter().collect()) };
+        if let Err((class, detail)) = check_invariants(&tree, &detached, reachable.as_ref()) {
             // refine: was this after a failing call?
             let class = match &real {
                 Outcome::Err(_) => format!("{class}_after_err"),
